@@ -119,6 +119,13 @@ def dt_value(t):
 _SYS_CACHE = {}
 
 
+class FactoryDt(Exception):
+    """the class constructor called with a positional timebase returned another timebase"""
+    def __init__(self, cls, given, got):
+        Exception.__init__(self, "%s constructor with positional dt=%s has timebase %s" % (cls, given, got))
+        self.cls, self.given, self.got = cls, given, got
+
+
 def make_sys(cls, dtok):
     key = (cls, dtok)
     if key not in _SYS_CACHE:
@@ -131,7 +138,10 @@ def make_sys(cls, dtok):
             s = ct.FrequencyResponseData(np.array([1 + 1j, 2.]), [1., 2.], dt)
         else:
             s = ct.nlsys(lambda t, x, u, p: -x + u, lambda t, x, u, p: x, inputs=1, outputs=1, states=1, dt=dt)
-        assert exact.dt_canon(s.dt) == dtok, (cls, dtok, s.dt)
+        if exact.dt_canon(s.dt) != dtok:
+            # never an assertion: a constructor that does not keep the positional timebase it was
+            # given is a finding about the implementation (C05 `factory_given`), not a harness bug
+            raise FactoryDt(cls, dtok, exact.dt_canon(s.dt))
         _SYS_CACHE[key] = s
     return _SYS_CACHE[key]
 
@@ -212,7 +222,13 @@ class DtPredStream(Stream):
             obj = OTHERS[s[6:]]
         else:
             _, cls, t = s.split(":")
-            obj = make_sys(cls, t)
+            try:
+                obj = make_sys(cls, t)
+            except FactoryDt as e:
+                return {"err": "factory-dt", "exc": str(e), "cls": e.cls, "given": e.given, "got": e.got}
+            except Exception as e:  # noqa   (the constructor itself raised)
+                return {"err": "factory-raise", "exc": "%s: %s" % (type(e).__name__, str(e)[:120]),
+                        "cls": cls, "given": t, "got": "raise"}
         kw = {} if case["strict"] is None else {"strict": case["strict"]}
         fn = case["fn"]
         try:
@@ -246,6 +262,10 @@ class DtPredStream(Stream):
 
     def compare(self, case, impl, model):
         key = lambda r: "err" if "err" in r else r.get("ok", r.get("ok_dt"))
+        if impl.get("err") in ("factory-dt", "factory-raise"):
+            return Verdict(VIOLATES, "operand of the predicate stream: %s" % impl["exc"],
+                           {"kind": impl["err"], "k": "dtpred", "cls": impl["cls"], "via": "classpos",
+                            "given": impl["given"], "got": impl["got"]})
         if key(impl) == key(model) and ("err" not in impl or impl["err"] == model["err"]):
             return Verdict(AGREE)
         want = pred_oracle(case["fn"], case["sys"], self.strict_of(case), case["dt"])
